@@ -186,3 +186,60 @@ def vc_hodge(H, which):
         ck = (alg.N.t - 1) - k
         return table_facts(alg, [(k, ck), (ck, k)])
     _generic_dictcomp(H, fuc, which, spec, extra_env=env if which == 'unhodge' else None, facts=facts)
+
+
+# =====================================================================================
+# polarity / unpolarity
+# =====================================================================================
+def vc_polarity(H):
+    """C05: polarity(x) = x * inverse(pss), ZeroDivisionError exactly when pss*pss == 0 (degenerate metric);
+    unpolarity(x) = x * pss.  pss^-1 = pss / pss^2 and pss^2 = signs[pss,pss] in {1,-1,0}, so the expected results are
+    x*pss, (-x)*pss (== -(x*pss) by bilinearity) and an exception."""
+    from kvc.rec import Rec, sym, same
+    from kvc.models import SignsTable
+
+    class PolAlg:
+        def __init__(self, ctx):
+            self.N = SKey.fresh('alg_N', 1, 1 << W)
+            ctx.assume(self.N.range_constraint())
+            ctx.assume(self.N.t & (self.N.t - 1) == 0)
+            ctx.ghost['N'] = self.N
+            self.signs = SignsTable()
+            self.pss = sym('pss')
+
+        def kvc_len(self):
+            return self.N
+
+        def kvc_getattr(self, interp, name):
+            if name in ('signs', 'pss'):
+                return getattr(self, name)
+            raise OutOfSubset(f'algebra.{name} not modelled here')
+    for which in ('polarity', 'unpolarity'):
+        fuc = H.fn(REL, f'codegen_{which}')
+        helper = H.fn(REL, 'codegen_polarity')
+
+        def body(ctx, which=which, fuc=fuc):
+            alg = PolAlg(ctx)
+            x = sym('x', attrs={'algebra': alg})
+            interp = Interp(ctx, source_name=REL)
+            env = {'codegen_polarity': H.closure(interp, helper)} if which == 'unpolarity' else {}
+            try:
+                r = H.closure(interp, fuc, env)(x)
+                raised = None
+            except ZeroDivisionError as e:
+                r, raised = None, e
+            gp = lambda a, b: Rec('binop', 'Mult', a, b)
+            if which == 'unpolarity':
+                ctx.oblige('post: unpolarity(x) == x * pss', raised is None and same(r, gp(x, alg.pss)))
+            else:
+                pss = alg.N.t - 1
+                sq = SSign(alg.signs.zf(pss, pss), alg.signs.nf(pss, pss))
+                is_x = z3.BoolVal(raised is None and same(r, gp(x, alg.pss)))
+                is_negx = z3.BoolVal(raised is None and same(r, gp(Rec('unop', 'USub', x), alg.pss)))
+                ctx.oblige('post: pss*pss == +1  ->  x * pss', z3.Implies(z3.And(z3.Not(sq.z), z3.Not(sq.n)), is_x))
+                ctx.oblige('post: pss*pss == -1  ->  (-x) * pss', z3.Implies(z3.And(z3.Not(sq.z), sq.n), is_negx))
+                ctx.oblige('post: ZeroDivisionError  <=>  pss*pss == 0', sq.z == z3.BoolVal(raised is not None))
+            if raised is not None:
+                raise raised
+            return r
+        H.run_paths(fuc, '', body)
